@@ -20,7 +20,7 @@ import (
 
 var c19Sigma = []string{"a", "A", "s", ".", "k", "1", "é", "É", "\u017f", "\u212a"} // long s (U+017F) folds with s/S, Kelvin sign (U+212A) with k/K: fold partners of different UTF-8 length
 
-var c19Atoms = []string{"a", "A", ".", `\.`, `\w`, `\W`, `\d`, `\D`, `\s`, `\S`, `\b`, `\B`, "[A-Z]", "[^a-z]", "^", "$", "|", "a*", "(A|b)", "(?i)", "(?-i:A)", `\pL`, `\p{Lu}`, `\PL`, `\x41`, `\QA.b\E`, "A{2}", "é", "[[:upper:]]", `\p{Greek}`, "k"}
+var c19Atoms = []string{"a", "A", ".", `\.`, `\w`, `\W`, `\d`, `\D`, `\s`, `\S`, `\b`, `\B`, "[A-Z]", "[^a-z]", "^", "$", "|", "a*", "(A|b)", "(?i)", "(?-i:A)", "(?:a|B)", `\pL`, `\p{Lu}`, `\PL`, `\x41`, `\QA.b\E`, "A{2}", "é", "[[:upper:]]", `\p{Greek}`, "k"}
 
 func stringsOver(sigma []string, maxLen int) []string {
 	out := []string{""}
@@ -111,6 +111,12 @@ func init() {
 		tool.Parallel(len(all), e.Workers, func(i int) {
 			pat := all[i]
 			isRe := isRegexpPattern(pat)
+			defer func() {
+				// a panic anywhere in the exported API is a finding of its own (never a harness failure)
+				if r := recover(); r != nil {
+					reportF("panic-in-api", pat, fmt.Sprint(r), []string{fmt.Sprintf("pattern %q", pat)})
+				}
+			}()
 			var re, reFold *regexp.Regexp
 			pclass := "plain"
 			if isRe {
@@ -225,7 +231,20 @@ func init() {
 						c /= n
 						path, mode := reps[d/2], d%2 == 0
 						want := refMatch(pat, re, reFold, path, mode)
-						got := fresh.Match(path, mode)
+						var got bool
+						panicked := false
+						func() {
+							defer func() {
+								if r := recover(); r != nil {
+									panicked = true
+									reportF("panic-on-match|"+pclass, pat, fmt.Sprint(r), append(append([]string{fmt.Sprintf("m := NewPatternMatcher(%q, %v)", pat, c0)}, steps...), fmt.Sprintf("Match(%q, %v) panics", path, mode)))
+								}
+							}()
+							got = fresh.Match(path, mode)
+						}()
+						if panicked {
+							break
+						}
 						steps = append(steps, fmt.Sprintf("Match(%q, %v) => %v", path, mode, got))
 						q++
 						if got != want {
